@@ -17,7 +17,7 @@ VERIF = os.path.dirname(os.path.dirname(os.path.abspath(__file__)))
 def main():
     src = sys.argv[1]
     rows = []
-    for res in sorted(glob.glob(os.path.join(src, "C??-M?.json")) + glob.glob(os.path.join(src, "R2-C??-M?.json")) + glob.glob(os.path.join(src, "R3-C??-M?.json")) + glob.glob(os.path.join(src, "R4-?-M?.json")) + glob.glob(os.path.join(src, "R5-?-M?.json")) + glob.glob(os.path.join(src, "R6-?-M?.json")) + glob.glob(os.path.join(src, "R7-?-M?.json")) + glob.glob(os.path.join(src, "R8-?-M?.json"))):
+    for res in sorted(glob.glob(os.path.join(src, "C??-M?.json")) + glob.glob(os.path.join(src, "R2-C??-M?.json")) + glob.glob(os.path.join(src, "R3-C??-M?.json")) + glob.glob(os.path.join(src, "R4-?-M?.json")) + glob.glob(os.path.join(src, "R5-?-M?.json")) + glob.glob(os.path.join(src, "R6-?-M?.json")) + glob.glob(os.path.join(src, "R7-?-M?.json")) + glob.glob(os.path.join(src, "R8-?-M?.json")) + glob.glob(os.path.join(src, "R9-?-M?.json"))):
         name = os.path.basename(res)[:-5]
         wt, k = name.rsplit("-M", 1)
         prop = wt[-3:]
@@ -60,6 +60,10 @@ def main():
         if name.startswith("R8-"):
             pairs = {"A": ("C01", "C09"), "B": ("C02", "C12"), "C": ("C03", "C15"), "D": ("C04", "C18"), "E": ("C05", "C16"),
                      "F": ("C06", "C19"), "G": ("C07", "C13"), "H": ("C08", "C20"), "I": ("C10", "C11"), "J": ("C14", "C17")}
+            prop = pairs[wt[-1]][0 if int(k) <= 2 else 1]
+        if name.startswith("R9-"):
+            pairs = {"A": ("C01", "C15"), "B": ("C02", "C17"), "C": ("C03", "C20"), "D": ("C04", "C13"), "E": ("C05", "C12"),
+                     "F": ("C06", "C10"), "G": ("C07", "C19"), "H": ("C08", "C11"), "I": ("C09", "C18"), "J": ("C14", "C16")}
             prop = pairs[wt[-1]][0 if int(k) <= 2 else 1]
         meta_path = os.path.join(out, "meta.json")
         old = json.load(open(meta_path)) if os.path.exists(meta_path) else {}
